@@ -72,11 +72,13 @@ class Lock:
 # ---------------------------------------------------------------- Coq side
 
 def coq_sources():
+    """The files of the development = the entries of _CoqProject (work in
+    progress that is not yet part of the build is not audited)."""
     out = []
-    for root, _, files in os.walk(COQ):
-        for f in files:
-            if f.endswith(".v"):
-                out.append(os.path.join(root, f))
+    for line in open(os.path.join(COQ, "_CoqProject")):
+        line = line.strip()
+        if line.endswith(".v"):
+            out.append(os.path.join(COQ, line))
     return sorted(out)
 
 
